@@ -1,7 +1,7 @@
 (* C19 correspondence evaluator: runs the model `serve` (over the table and shapes translated in this run) on the
    cases the black-box harness executed against the running server and reports the disagreeing case numbers. *)
 From Coq Require Import String List Bool NArith.
-From OG Require Import C19.Model C19.Gen_Routes C19.Privileges C19.Gen_Privileges.
+From OG Require Import C19.Model C19.Guards C19.Gen_Routes C19.Privileges C19.Gen_Privileges.
 Import ListNotations.
 Open Scope string_scope.
 Open Scope N_scope.
@@ -31,7 +31,31 @@ Definition kind_guards (k : rkind) : list string :=
   | KRepoSee | KListRepos _ => g_see
   | _ => []
   end.
-Definition kind_supported (r : route) (k : rkind) : bool :=
+(* the kind derived from the route's guard formula (DUnknown when there is no row) *)
+(* computed once, when this file is compiled against the tables of the run *)
+Definition derived_tab : list (string * string * dkind) :=
+  Eval vm_compute in map (fun f => (f_method f, f_pattern f, derive (f_formula f))) handler_formulas.
+Fixpoint find_derived (t : list (string * string * dkind)) (m p : string) : dkind :=
+  match t with
+  | [] => DUnknown
+  | (m', p', d) :: r => if String.eqb m' m && String.eqb p' p then d else find_derived r m p
+  end.
+Definition derived_of (r : route) : dkind := find_derived derived_tab (r_method r) (r_pattern r).
+Definition derived_now : list (string * string * string) :=
+  map (fun e => let '(m, p, d) := e in (m, p, dkind_name d)) derived_tab.
+(* does the derived kind support the kind a case claims? (None: the formula is not understood - the coarser handler facts decide) *)
+Definition derived_supports (d : dkind) (k : rkind) : option bool :=
+  match d with
+  | DUnknown => None
+  | _ => Some match k, d with
+              | KAdminOnly, DAdmin | KRepoSee, DSee | KWrite, DWrite | KQuery _, DQuery => true
+              | KQuery [[RDb "" ReadPriv]], (DDbRead | DAtLeastRead | DAtLeastQuery) => true
+              | KQuery _, DAtLeastQuery => true
+              | KListRepos _, DEveryone => true
+              | _, _ => false
+              end
+  end.
+Definition kind_supported_by_guards (r : route) (k : rkind) : bool :=
   match k with
   | KOpaque => true
   | KPublic => public r
@@ -47,6 +71,14 @@ Definition kind_supported (r : route) (k : rkind) : bool :=
                       | _ => false
                       end)
          end
+  end.
+
+Definition kind_supported (r : route) (k : rkind) : bool :=
+  match k with
+  | KOpaque => true
+  | KPublic => public r
+  | _ => hsig_eqb (r_sig r) SigUser &&
+         match derived_supports (derived_of r) k with Some b => b | None => kind_supported_by_guards r k end
   end.
 
 Definition model_case (c : case) : option (N * list effect) :=
